@@ -606,6 +606,12 @@ def main():
         extra_cov["unmodelled_api_differential"] = line
         if rc != 0 or not line.startswith("ok"):
             extra_fail.append(("oracle", None, "O7:unmodelled shared API differs from std: " + line, [line]))
+    if cfg.get("leakcheck"):
+        rc, o = sh([engine.HEXEC, "weakraw"], timeout=600)
+        line = o.strip().split("\n")[-1] if o.strip() else ""
+        extra_cov["weak_raw_round_trip_leak_scenarios"] = line
+        if rc != 0 or not line.startswith("ok"):
+            extra_fail.append(("oracle", None, "O4:" + line, [line]))
     if cfg.get("panicapi"):
         rc, o = sh([engine.HEXEC, "panicapi"], timeout=600)
         line = o.strip().split("\n")[-1] if o.strip() else ""
